@@ -31,6 +31,10 @@ pub struct ChunkedChars<R: Read> {
     /// Remember IO error, if any, here to report it later. This must be shared,
     /// as otherwise we cannot later reach with Saphyr parser API
     pub(crate) err: Rc<RefCell<Option<Error>>>,
+    /// The source has ended or failed: nothing is delivered any more (the parser's buffered input
+    /// expects a fused iterator; characters handed out after a failure made the scanner continue on
+    /// text with a hole in it).
+    done: bool,
     /// Verification hook H1: number of polls made after the source has ended.
     #[cfg(serde_saphyr_verif)]
     verif_polls_after_end: usize,
@@ -51,6 +55,7 @@ impl<R: Read> ChunkedChars<R> {
             source_is_utf16: Rc::new(Cell::new(false)),
             reader,
             err,
+            done: false,
             #[cfg(serde_saphyr_verif)]
             verif_polls_after_end: 0,
         }
@@ -89,6 +94,17 @@ impl<R: Read> Iterator for ChunkedChars<R> {
 impl<R: Read> ChunkedChars<R> {
     /// Returns the next Unicode scalar value from the stream, or `None` on EOF or error.
     fn next_inner(&mut self) -> Option<char> {
+        if self.done {
+            return None;
+        }
+        let c = self.next_char();
+        if c.is_none() {
+            self.done = true;
+        }
+        c
+    }
+
+    fn next_char(&mut self) -> Option<char> {
         // Read exactly one UTF-8 codepoint (1..=4 bytes) from the underlying reader.
         // No internal buffering: rely on the outer BufReader and decoder.
         let mut buf = [0u8; 4];
